@@ -137,7 +137,7 @@ Definition voices_check_self (c : bool * list vnote * list Z) : bool :=
   let ins := indexed_from 0 notes in
   let inp := vosa_input ins (equivs_of mono ins) in
   let vres := map (fun x => (fst x, nth (Z.to_nat (fst x)) out 0)) inp in
-  Nat.eqb (length out) (length notes) &&
+  Nat.eqb (List.length out) (List.length notes) &&
   match estimate_voices (fun _ => vres) mono notes with
   | Some vs => list_eqb Z.eqb vs out
   | None => false
